@@ -95,7 +95,9 @@ func (exec *Executor) execArrayIndex(
 
 				res, resErr = exec.executeNextItem(ctx, node, next, v, found)
 				if res.failed() || (res == statusOK && found == nil) {
-					break
+					// Leave both loops: a later subscript must not overwrite
+					// a failure, nor an item already found in probe mode.
+					return res, resErr
 				}
 			}
 		}
